@@ -17,6 +17,8 @@ run() { # <patch> <property> <label>
   ( cd $WT && git checkout -q -- . )
 }
 for d in seeded/C*/; do
+  # SEED_FILTER=<regex>: only the changes whose directory name matches (a partial regression)
+  if [ -n "$SEED_FILTER" ] && ! echo "$d" | grep -Eq "$SEED_FILTER"; then continue; fi
   # changes recorded as not caught (see their meta.json and DESIGN.md 0.3) are listed, not run
   if python3 -c "import json,sys; sys.exit(0 if json.load(open('$d/meta.json')).get('not_caught') else 1)"; then echo "recorded-as-not-caught  $(basename $d)" | tee -a $LOG; continue; fi
   p=$(python3 -c "import json,sys; print(json.load(open('$d/meta.json'))['breaks_property'])")
@@ -27,7 +29,7 @@ import json,re
 m=json.load(open('seeded/reverts/meta.json'))['results']
 for k,v in m.items(): print(k, re.match(r'(C\d\d)',v).group(1))
 PY
-while read f p; do run "$PWD/seeded/reverts/revert_$f.diff" $p "revert_$f"; done < /tmp/seedall_reverts.$$
+while read f p; do if [ -n "$SEED_FILTER" ] && ! echo "revert_$f-$p" | grep -Eq "$SEED_FILTER"; then continue; fi; run "$PWD/seeded/reverts/revert_$f.diff" $p "revert_$f"; done < /tmp/seedall_reverts.$$
 rm -f /tmp/seedall_reverts.$$
 # the unchanged worktree must be clean for every registered check (a monitor or token added for a seed must not raise
 # an alarm on the original code)
@@ -35,4 +37,4 @@ for id in $(python3 -c "import json; print(' '.join(c['property_id'] for c in js
   out=$(VERIF_REPO=$WT python3 tools/vcheck.py $id $TIER 2>&1); rc=$?
   if [ $rc -ne 0 ]; then echo "MISSED  unchanged-tree-alarm by $id (exit=$rc) $(echo "$out" | grep VIOLATION | head -1)" | tee -a $LOG; fail=1; else echo "clean   unchanged tree, $id" ; fi
 done
-echo "$(date -u +%FT%TZ) tier=$TIER: $(grep -c "^caught" $LOG) caught, $(grep -c "^MISSED" $LOG) missed, $(grep -c "^recorded-as-not-caught" $LOG) recorded as not caught" > seeded/REGRESSION.txt; grep "^MISSED" $LOG >> seeded/REGRESSION.txt; exit $fail
+echo "$(date -u +%FT%TZ) tier=$TIER${SEED_FILTER:+ filter=$SEED_FILTER}: $(grep -c "^caught" $LOG) caught, $(grep -c "^MISSED" $LOG) missed, $(grep -c "^recorded-as-not-caught" $LOG) recorded as not caught" > seeded/REGRESSION.txt; grep "^MISSED" $LOG >> seeded/REGRESSION.txt; exit $fail
